@@ -320,7 +320,7 @@ def exc_info(ex):
         if fr.filename.startswith(root):
             where = f"{fr.filename[len(root):]}:{fr.name}"
             break
-    return {"type": type(ex).__name__, "msg": str(ex)[:300], "where": where, "last": f"{os.path.basename(tb[-1].filename)}:{tb[-1].name}" if tb else None,
+    return {"type": type(ex).__name__, "msg": str(ex)[:300], "msg_full": str(ex)[:4000] if len(str(ex)) > 300 else None, "where": where, "last": f"{os.path.basename(tb[-1].filename)}:{tb[-1].name}" if tb else None,
             "args": [desc(a) for a in getattr(ex, "args", ())[:3]] if type(ex).__name__ == "UnexpectedStatus" else None,
             "status_code": getattr(ex, "status_code", None) if type(ex).__name__ == "UnexpectedStatus" else None,
             "content": b64(getattr(ex, "content", b"")) if type(ex).__name__ == "UnexpectedStatus" and isinstance(getattr(ex, "content", None), bytes) else None}
@@ -429,7 +429,10 @@ def field_info(cls):
                 members = [hint_str(x) for x in typing.get_args(h)]
             else:
                 members = [hint_str(h)]
-        out.append({"name": a.name, "init": a.init, "has_default": has_default, "default": d, "annotation": hint_str(h) if h is not None else None,
+        dprob = None
+        if has_default and h is not None and not isinstance(a.default, _attr.Factory):
+            dprob = conforms(a.default, h, ns)
+        out.append({"name": a.name, "init": a.init, "has_default": has_default, "default": d, "default_problem": dprob, "annotation": hint_str(h) if h is not None else None,
                     "admits_none": h is not None and conforms(None, h, ns) is None and h is not typing.Any,
                     "admits_unset": h is not None and h is not typing.Any and conforms(types_mod().UNSET, h, ns) is None,
                     "members": members, "kw_only": a.kw_only})
@@ -539,7 +542,13 @@ def sig_info(fn):
     ps = []
     for p in sig.parameters.values():
         h = hints.get(p.name, p.annotation if p.annotation is not inspect._empty else None)
-        ps.append({"name": p.name, "kind": p.kind.name, "has_default": p.default is not inspect._empty,
+        dprob = None
+        if p.default is not inspect._empty and h is not None and not isinstance(h, str):
+            try:
+                dprob = conforms(p.default, h, ns)
+            except Exception as ex:
+                dprob = f"conformance check failed: {type(ex).__name__}"
+        ps.append({"name": p.name, "kind": p.kind.name, "has_default": p.default is not inspect._empty, "default_problem": dprob,
                    "default": desc(p.default) if p.default is not inspect._empty else None,
                    "annotation": hint_str(h) if h is not None else None,
                    "admits_none": h is not None and not isinstance(h, str) and h is not typing.Any and conforms(None, h, ns) is None,
